@@ -309,7 +309,71 @@ def _star_tests(f: Func, cfg: CFG, node_txt: str):
                 first_ret = [x for x in t if x.kind == "stmt" and isinstance(x.ast, ast.Return)]
                 yields_change = any(x.is_yield for x in reach(cfg, t, blocked_nodes=[x for x in r if x.kind == "stmt" and isinstance(x.ast, ast.Return)], skip_labels=("exc",)))
                 out.append((c, k, bool(first_ret) or not yields_change))
+    # predicate-helper form: `if self._has_star(node): return old` - the helper answers truthy exactly on its own star test
+    if _repo_for_star is not None:
+        for c in cfg.conds():
+            e = c.ast
+            if not (isinstance(e, ast.Call) and any(norm(a) == node_txt for a in e.args)):
+                continue
+            g = None
+            if isinstance(e.func, ast.Attribute) and isinstance(e.func.value, ast.Name) and f.params and e.func.value.id == f.params[0]:
+                owner = f
+                while owner is not None and owner.cls is None:
+                    owner = owner.parent
+                if owner is not None:
+                    g = _repo_for_star.lookup_method(owner.cls, e.func.attr)
+            elif isinstance(e.func, ast.Name):
+                r_ = _repo_for_star.resolve_name(f.module, e.func.id)
+                g = r_[1] if r_ and r_[0] == "func" else None
+            if g is None or g is f:
+                continue
+            idx = [i for i, a in enumerate(e.args) if norm(a) == node_txt][0]
+            gparams = g.params[1:] if (g.cls is not None and "staticmethod" not in g.decorators) else g.params
+            if idx >= len(gparams):
+                continue
+            kinds = _star_predicate_kinds(g, gparams[idx])
+            if not kinds:
+                continue
+            t = [b for b, l in c.succ if l == "T"]
+            r = reach(cfg, t, skip_labels=("exc",))
+            first_ret = [x for x in t if x.kind == "stmt" and isinstance(x.ast, ast.Return)]
+            yields_change = any(x.is_yield for x in reach(cfg, t, blocked_nodes=[x for x in r if x.kind == "stmt" and isinstance(x.ast, ast.Return)], skip_labels=("exc",)))
+            for k in kinds:
+                out.append((c, k, bool(first_ret) or not yields_change))
     return out
+
+
+_repo_for_star = None
+
+
+def _star_predicate_kinds(g: Func, p: str):
+    """kinds of star test for which g(<node>) answers truthy when the node holds a star-expression (and falsy at its end)"""
+    gcfg = cfg_of(g)
+    kinds = set()
+    rets = gcfg.stmts(ast.Return)
+    # `return any(isinstance(e, ast.Starred) for e in node.elts)` and friends
+    for r in rets:
+        s = norm(r.ast.value) if r.ast.value is not None else ""
+        if s.startswith("any(") and p in s:
+            k = "starred" if "Starred" in s else "none-key" if "is None" in s and ".keys" in s else "kwarg-none" if ".arg is None" in s else None
+            if k:
+                kinds.add(k)
+    # loop form: `for e in node.elts: if isinstance(e, Starred): ...; return True` + `return False`
+    global _repo_for_star
+    saved = _repo_for_star
+    _repo_for_star = None  # no recursion into further helpers
+    try:
+        for n, k, bails in _star_tests(g, gcfg, p):
+            if n.kind != "for":
+                continue
+            body = reach(gcfg, [b for b, l in n.succ if l == "iter"], blocked_nodes=[n])
+            truthy = [x for x in body if x.kind == "stmt" and isinstance(x.ast, ast.Return) and isinstance(x.ast.value, ast.Constant) and x.ast.value.value is True]
+            falsy_end = [x for x in rets if x not in body and (x.ast.value is None or (isinstance(x.ast.value, ast.Constant) and not x.ast.value.value))]
+            if truthy and (falsy_end or not [x for x in rets if x not in body]):
+                kinds.add(k)
+    finally:
+        _repo_for_star = saved
+    return kinds
 
 
 def star_freeze(repo: Repo, rep):
@@ -321,6 +385,8 @@ def star_freeze(repo: Repo, rep):
     )
     mods = [m for m in repo.modules.values() if m.rel.startswith(("_adapter/", "_snapshot/"))]
     n = 0
+    global _repo_for_star
+    _repo_for_star = repo
     for m in mods:
         for f in m.funcs.values():
             cfg = None
@@ -442,12 +508,14 @@ def reeval_refresh(repo: Repo, rep):
         "in GenericValue._re_eval the Unmanaged branch stores the new value into .value and returns; the 'snapshot value should not change' UsageError is "
         "reachable only for managed (update_allowed) values",
     )
-    f = repo.find_func("_snapshot/generic_value.py", "GenericValue._re_eval.re_eval")
-    if f is None:
-        rep.undecided("R-REEVAL-REFRESH", "nested re_eval not found")
+    from .common import reeval_worker
+
+    w = reeval_worker(repo)
+    if w is None:
+        rep.undecided("R-REEVAL-REFRESH", "the recursive re-evaluation check of generic_value.py was not found")
         return
+    f, old = w[0], w[1]
     cfg = cfg_of(f)
-    old = f.params[0]
     uc = [c for c in cfg.conds() if isinstance(c.ast, ast.Call) and norm(c.ast.func) == "isinstance" and len(c.ast.args) == 2 and norm(c.ast.args[0]) == old and "Unmanaged" in norm(c.ast.args[1])]
     if not uc:
         rep.violation("R-REEVAL-REFRESH", f, f.node, "re-evaluation no longer treats Unmanaged values separately: a changed Is(...) value raises 'snapshot value should not change'", construct="no-test")
